@@ -25,6 +25,41 @@ add("C19", "E5 endpoint-enum", "model_checking",
     "Not covered: strings outside the alphabet or longer than the bound.",
     "bounded-exhaustive input enumeration against a reference model (explicit enumeration, no sampling)")
 
+add("C01", "E1 codec-enum + E3 sock-mc", "model_checking",
+    "Bounded-exhaustive: every message whose frame lengths lie in the boundary grid G^N (N<=3; thorough adds MiB sizes, N=4 and all "
+    "splits of 600 bytes) is encoded by the real codec and compared byte for byte with an independent RFC-23 encoder, decoded by the "
+    "independent decoder and by the library; all greeting field combinations and READY encodings for 12 socket types x 8 identity "
+    "sizes likewise; and the bytes each of the 9 real socket types writes on an attached in-memory connection (identity none/1/255 B) "
+    "are checked under every schedule within the deviation bound. The statement quantifies over all inputs; the 255/256 and 2^16 "
+    "boundaries are where an off-by-one hides and they are crossed exhaustively.",
+    "DESIGN.md 5.1",
+    "Trusted: the reference codec (refcodec.rs, written from RFC 23). Not covered: lengths between grid points, > 4 MiB.",
+    "bounded-exhaustive input enumeration of the real codec against a reference codec + deviation-bounded schedule exploration of the real handshake")
+
+add("C02", "E1 codec-enum + E3 sock-mc", "model_checking",
+    "Explicit-state: for each stream (greeting + up to 3/4 items from a 12-item menu incl. empty, 255/256-byte, >8 KiB and multipart "
+    "frames and READY variants) the graph whose nodes are (bytes fed, canonical reader state) is explored on the real framed reader: "
+    "every edge p->q is executed and must land in the single state recorded for q, which must equal the reference decode of the "
+    "prefix; since the reader is a deterministic function of that state and the remaining bytes this proves all 2^|I| partitions with "
+    "cuts in I decode identically. Socket level: greeting+READY+2 messages delivered to 7 real socket types under all single cuts, "
+    "pairs of cuts and byte-at-a-time through real attach+recv (covers data arriving in the segment that ends the handshake).",
+    "DESIGN.md 5.2",
+    "Assumes the reader's future is a function of (decoder Debug state, unread buffer bytes): true of FramedRead2+ZmqCodec whose only "
+    "fields these are. Cuts outside the cut set for streams above the dense limit are not covered.",
+    "explicit-state exploration of the (bytes fed, reader state) graph with state merging + exhaustive cut enumeration on real sockets")
+
+add("C03", "E1 codec-enum + E3 sock-mc (child-process isolated)", "model_checking",
+    "Bounded-exhaustive: every byte string over a 12-symbol alphabet (all flag combinations incl. reserved bit, small lengths, a name "
+    "byte) up to length 5/6 after a valid greeting, fed whole and byte-at-a-time to the real framed reader; ~1700 structured hostile "
+    "inputs (inconsistent command lengths truncated at every byte, 64-bit lengths incl. sign bit, MORE chains up to 100000 frames), "
+    "each in its own child process on a 2 MiB stack with a counting allocator (no panic, no abnormal exit, heap growth <= 1 MiB + 64 x "
+    "bytes received); and one representative per distinct codec outcome fed at each of 3 handshake stages to each of the 9 real socket "
+    "types next to a healthy peer whose traffic must still get through, under all schedules within the deviation bound. A crash is an "
+    "abort no #[test] can assert on; child isolation turns it into an observable exit status.",
+    "DESIGN.md 5.3",
+    "Trusted: the counting allocator, child exit statuses. Not covered: byte strings longer than the sweep bound outside the structured family.",
+    "bounded-exhaustive input enumeration with process-isolated fault observation + deviation-bounded schedule exploration on real sockets")
+
 PENDING = ["C01","C02","C03","C04","C05","C06","C07","C08","C09","C10","C11","C12","C13","C14","C15","C16","C17","C18","C20"]
 
 def main():
